@@ -210,9 +210,20 @@ def s_dm(vc):
     # non-vacuity (not demanded by the statement): ordinary host names match themselves and their dotted parent domains
     if vc.branch(a == d):
         vc.ensure("complete.equal_host", r)
-    elif lead == ".":
+    else:
         host_like = And(rx(vc, a, "hostname"), rx(vc, d, "hostname"))
-        vc.ensure("complete.dotted_parent_domain", Implies(And(host_like, endswith(a, "." + d)), r))
+        if lead == ".":
+            for nm, x in (("host", a), ("domain", d)):
+                lemma(vc, nm + "_name_does_not_end_in_dot_digits", Implies(rx(vc, x, "hostname"), Not(ends_with_dot_digits(vc, x))))
+                lemma(vc, nm + "_name_has_no_outer_dots", Implies(rx(vc, x, "hostname"), And(len_(x) > 0, Not(startswith(x, ".")), Not(endswith(x, ".")))))
+            lemma(vc, "suffix_is_substring", Implies(endswith(a, "." + d), contains(a, "." + d)))
+            vc.ensure("complete.dotted_parent_domain", Implies(And(host_like, endswith(a, "." + d)), r))
+        else:
+            # KF-C54-4: Domain=example.com (RFC 6265 form, no leading dot) never matches a sub-domain host (the library
+            # implements RFC 2965); consequence for the statement: an expiring Set-Cookie from a.example.com does not
+            # remove the example.com cookie from the jar.  The whole class is the finding (nothing to prove outside it).
+            K4 = And(host_like, endswith(a, "." + d))
+            vc.ensure_kf("complete.undotted_parent_domain", Implies(K4, r), "KF-C54-4", K4)
 
 
 @scenario("domain_match.malformed_domain", functions=[M + ":domain_match"], **DM_OPTS)
@@ -415,7 +426,10 @@ def uri_path(vc, target):
 def spec_path_match(vc, target, c):
     """RFC 6265 §5.1.4: request-path r = uri-path of the target; r == c, or c is a prefix of r and (c ends in "/" or the
     first character of r after c is "/")"""
-    r = uri_path(vc, target)
+    return spec_path_match_rp(uri_path(vc, target), c)
+
+
+def spec_path_match_rp(r, c):
     n = len_(c)
     return Or(r == c, And(startswith(r, c), Or(endswith(c, "/"), r[n:n + 1] == "/")))
 
@@ -434,19 +448,23 @@ def header_fields(vc, req):
     return [list(x.items) if isinstance(x, STuple) else list(x) for x in (f.items if isinstance(f, (STuple, SList)) else f)]
 
 
-@scenario("request", functions=[SC + ".request"])
+@scenario("request", functions=[SC + ".request"], z3_timeout_ms=3000)
 def s_request(vc):
     has_flt = vc.case("filter_set", [True, False])
     hshape = vc.case("headers", list(HEADERS_PRE))
     host, port = vc.sym_str("host"), vc.sym_int("port", lo=0, hi=65535)
-    pathb = vc.sym_bytes("path")
-    import z3 as _z
+    # request target = uri-path [ "?" query ]  (ASCII; non-ASCII targets: T2)
+    rpb, qb = vc.sym_bytes("uri_path"), vc.sym_bytes("query")
+    has_query = vc.case("has_query", [False, True])
+    pathb = rpb + b"?" + qb if has_query else rpb
     if vc.mode == "sym":
-        vc.assume(SBool(_z.InRe(pathb.t, _z.Star(_z.Range(chr(0), chr(127))))))     # ASCII request target (others: T2)
-        path = SStr(pathb.t)
+        import z3 as _z
+        vc.assume(SBool(_z.InRe(rpb.t, _z.Star(_z.Union(_z.Range(chr(0), ">"), _z.Range("@", chr(127)))))))     # ASCII without "?"
+        vc.assume(SBool(_z.InRe(qb.t, _z.Star(_z.Range(chr(0), chr(127))))))
+        path, rpath = SStr(pathb.t), SStr(rpb.t)
     else:
-        vc.assume(all(c < 128 for c in pathb))
-        path = pathb.decode("ascii")
+        vc.assume(all(c < 128 and c != 63 for c in rpb) and all(c < 128 for c in qb))
+        path, rpath = pathb.decode("ascii"), rpb.decode("ascii")
     keys = [(vc.sym_str(f"dom{j}"), vc.sym_int(f"port{j}", lo=0, hi=65535), vc.sym_str(f"path{j}")) for j in range(2)]
     items = [[(vc.sym_str("n00"), vc.sym_str("v00")), (vc.sym_str("n01"), vc.sym_str("v01"))], [(vc.sym_str("n10"), vc.sym_str("v10"))]]
     vc.assume(items[0][0][0] != items[0][1][0])                       # dict keys of one entry are distinct
@@ -492,11 +510,12 @@ def s_request(vc):
     for j in range(2):
         d_j, p_j, c_j = keys[j]
         vc.ensure(f"entry{j}.domain_matched_against_request_host", True if j >= len(dm_calls) else deep_eq(vc, list(dm_calls[j]), [host, d_j]))
-        spec_j = And(dms[j], port == p_j, spec_path_match(vc, path, c_j))
+        spec_j = And(dms[j], port == p_j, spec_path_match_rp(rpath, c_j))
         # KF-C54-2: bare prefix test on the whole request target: "/foo" is taken to match "/foobar"
-        K2 = And(dms[j], port == p_j, startswith(path, c_j), Not(spec_path_match(vc, path, c_j)))
+        K2 = And(dms[j], port == p_j, startswith(path, c_j), Not(spec_path_match_rp(rpath, c_j)))
         vc.ensure_kf(f"entry{j}.attached_only_if_domain_port_and_path_match", Implies(took[j], spec_j), "KF-C54-2", K2)
-        vc.ensure(f"entry{j}.attached_if_domain_port_and_path_match", Implies(spec_j, took[j]))
+        if not has_query:   # converse (non-vacuity; not demanded by the statement), stated for targets without a query
+            vc.ensure(f"entry{j}.attached_if_domain_port_and_path_match", Implies(spec_j, took[j]))
     exp = [list(kv) for j in range(2) if took[j] for kv in items[j]]
     vc.ensure("list.exactly_the_cookies_of_attached_entries_in_jar_order", deep_eq(vc, observed, exp))
     if observed:
@@ -504,3 +523,185 @@ def s_request(vc):
         vc.ensure("metadata.marked", has_meta)
     else:
         vc.ensure("nothing_attached.request_untouched", And(deep_eq(vc, fields, [list(x) for x in pre_fields]), not has_meta))
+
+
+# =============================================================================================
+# T2 (bounded): the real StickyCookie addon on response/request histories against an executable RFC 6265 reference
+
+ASSUMPTIONS = [
+    "T1 domain_match: host and Domain attribute are canonical ASCII lower-case text (RFC 6265 canonicalises both before matching), so str.lower() is the identity; case-insensitivity is exercised in T2 only",
+    "T1 domain_match: Domain attribute non-empty after removing one leading dot (RFC 6265 5.2.3: empty value => attribute ignored / undefined)",
+    "http.cookiejar.domain_match / is_HDN are interpreted from the standard library's source (scenario cookiejar.domain_match); inside stickycookie.domain_match the call is replaced by exactly the post-condition proved there",
+    "re.Pattern.search for IPV4_RE (r'\\.\\d+$', re.ASCII) is the SMT regular-language membership (translated from CPython's own parse tree); str.strip('.') is an uninterpreted function with true facts (result clean, identity on clean input, one-character unfolding); str.rfind by its last-occurrence characterisation",
+    "T1 response/request: stickycookie.domain_match is an arbitrary predicate with recorded arguments (its contract is separate); Set-Cookie parsing (Response.cookies), cookies.is_expired, flowfilter.match and cookies.format_cookie_header are abstracted (exercised for real in T2)",
+    "T1 request: jar with two entries (2 + 1 cookies) and symbolic keys; request target ASCII; the cookie path of a cookie without Path attribute is '/' (mitmproxy's choice; RFC 6265 5.1.4 default-path would be the directory of the setting request's path)",
+]
+
+
+def _ref_is_ip(h):
+    import ipaddress
+    try:
+        ipaddress.ip_address(h)
+        return True
+    except ValueError:
+        return False
+
+
+def ref_domain_match(host, domain_attr):
+    """RFC 6265 §5.1.3 / §5.2.3. domain_attr None: host-only cookie (identical host)."""
+    h = host.lower()
+    if domain_attr is None:
+        return None
+    d = domain_attr.lower()
+    if d.startswith("."):
+        d = d[1:]
+    if not d:
+        return None        # undefined: not judged
+    return h == d or (h.endswith("." + d) and not _ref_is_ip(h))
+
+
+def ref_path_match(target, cookie_path):
+    r = target.split("?", 1)[0]
+    c = cookie_path
+    return r == c or (r.startswith(c) and (c.endswith("/") or r[len(c):len(c) + 1] == "/"))
+
+
+def _domain_defect(host, dattr):
+    """which recorded defect class explains a domain match that RFC 6265 does not grant"""
+    h, d = host.lower(), dattr.lower()
+    d1 = d[1:] if d.startswith(".") else d
+    if h == d.strip(".") and h != d1:
+        return "sticky.domain_match.overstripped_dots[KF-C54-3]"
+    if ("." + d1) in h and not h.endswith("." + d1):
+        return "sticky.domain_match.inner_substring[KF-C54-1]"
+    return None
+
+
+def bounded(tier, seed):
+    import asyncio
+    import itertools
+    import random
+
+    from mitmproxy import http
+    from mitmproxy.addons import stickycookie
+    from mitmproxy.test import taddons, tflow, tutils
+
+    b = Bounded()
+    hosts = ["example.com", "a.example.com", "x.example.com.evil.org", "xexample.com", "www.example.community", "10.0.0.1", "EXAMPLE.com", "evil.org"]
+    ports = [80, 8080]
+    targets = ["/", "/foo", "/foo/bar", "/foobar", "/foo?x=1", "/fo"]
+    dattrs = [None, "example.com", ".example.com", "a.example.com", ".evil.org", ".example.com.", "..example.com", ".0.1", ".Example.COM", "10.0.0.1"]
+    pattrs = [None, "/", "/foo", "/foo/"]
+    expiries = [None, "Expires=Thu, 01 Jan 1970 00:00:00 GMT", "Max-Age=0", "Max-Age=3600"]
+    b.rule = ("histories [response(host, port, target, Set-Cookie(name, value, Domain?, Path?, Expires/Max-Age?)) x 1..2, request(host, port, target)] on the real "
+              "StickyCookie addon (filter '.*'), judged by an executable RFC 6265 reference: stored only if Domain matches the responding host, expired removed, "
+              "attached only to requests that domain-, port- and path-match a live origin; host-only cookies only to the identical host; converse for plain host names; "
+              "distinct = history; non-trivial = some cookie is attached or refused for a related host")
+    b.bound = f"hosts {len(hosts)} x ports {len(ports)} x targets {len(targets)} x Domain {len(dattrs)} x Path {len(pattrs)} x expiry {len(expiries)}; <= 2 responses + 1 request"
+    rnd = random.Random(seed)
+
+    def set_cookie(name, value, dattr, pattr, exp):
+        s = f"{name}={value}"
+        if dattr is not None:
+            s += f"; Domain={dattr}"
+        if pattr is not None:
+            s += f"; Path={pattr}"
+        if exp is not None:
+            s += f"; {exp}"
+        return s
+
+    resp_specs = list(itertools.product(hosts, ports, dattrs, pattrs, expiries))
+    req_specs = list(itertools.product(hosts, ports, targets))
+    histories = []
+    # (1) one response, one request
+    one = [([r], q) for r in resp_specs for q in req_specs]
+    rnd.shuffle(one)
+    histories += one[: (6000 if tier == "quick" else 120000)]
+    # (2) set, then a second response (expire / overwrite / unrelated) from a related host, then request
+    second = [r for r in resp_specs if r[0] in ("example.com", "a.example.com", "x.example.com.evil.org") and r[2] in (None, ".example.com", "example.com")]
+    first = [r for r in resp_specs if r[4] in (None, "Max-Age=3600") and r[0] in ("example.com", "a.example.com") and r[2] in (None, ".example.com", "example.com")]
+    two = [([r1, r2], q) for r1 in first for r2 in second for q in req_specs if q[0] in ("example.com", "a.example.com", "xexample.com")]
+    rnd.shuffle(two)
+    histories += two[: (3000 if tier == "quick" else 60000)]
+    b.exhaustive = False
+
+    async def run():
+        sc = stickycookie.StickyCookie()
+        with taddons.context(sc) as tctx:
+            tctx.configure(sc, stickycookie=".*")
+            for resps, (qhost, qport, qtarget) in histories:
+                sc.jar.clear()
+                live = []      # origins: dict(name, value, host, port, dattr, path, key)
+                inp = {"responses": [], "request": [qhost, qport, qtarget]}
+                nontrivial = False
+                for i, (host, port, dattr, pattr, exp) in enumerate(resps):
+                    name, value = "c", f"v{i}"
+                    hdr = set_cookie(name, value, dattr, pattr, exp)
+                    inp["responses"].append([host, port, hdr])
+                    f = tflow.tflow(req=tutils.treq(host=host, port=port, path=b"/set"), resp=tutils.tresp(headers=http.Headers([(b"set-cookie", hdr.encode())])))
+                    before = {k: dict(v) for k, v in sc.jar.items()}
+                    sc.response(f)
+                    key = (dattr if dattr is not None else host, port, pattr if pattr is not None else "/")
+                    after = {k: dict(v) for k, v in sc.jar.items()}
+                    stored = after.get(key, {}).get(name) == value
+                    expired = exp is not None and exp != "Max-Age=3600"
+                    ok = True if dattr is None else ref_domain_match(host, dattr)      # True / False / None (undefined)
+                    if ok is False:
+                        # RFC 6265 5.3 step 6: the cookie is ignored entirely (neither stored nor used to delete)
+                        if after != before:
+                            nontrivial = True
+                            b.fail(_domain_defect(host, dattr) or "sticky.foreign_domain_cookie_ignored", inp, f"jar {before} -> {after}")
+                    elif expired:
+                        if name in after.get(key, {}):
+                            undotted = dattr is not None and not dattr.startswith(".") and host.lower() != dattr.lower()
+                            b.fail("sticky.expired_cookie_removed.undotted_domain_from_subdomain[KF-C54-4]" if undotted else "sticky.expired_cookie_removed", inp, f"jar[{key}] = {after[key]}")
+                        if key in after and not after[key]:
+                            b.fail("sticky.empty_entry_dropped", inp, f"jar keeps empty entry {key}")
+                    elif ok is True and not stored and (dattr is None or (dattr.startswith(".") and not _ref_is_ip(host.lower()) and host.lower() != dattr.lower().strip("."))):
+                        b.fail("sticky.stored_when_domain_matches", inp, f"not stored under {key}")
+                    if {k: v for k, v in after.items() if k != key} != {k: v for k, v in before.items() if k != key}:
+                        b.fail("sticky.other_entries_untouched", inp, f"jar {before} -> {after}")
+                    # follow the code's jar for the origin bookkeeping (deviations were reported above)
+                    live = [o for o in live if not (o["key"] == key and o["name"] == name and after.get(key, {}).get(name) != o["value"])]
+                    if stored:
+                        live.append(dict(name=name, value=value, host=host, port=port, dattr=dattr, path=key[2], key=key))
+                q = tflow.tflow(req=tutils.treq(host=qhost, port=qport, path=qtarget.encode()))
+                sc.request(q)
+                got = q.request.headers.get("cookie", "")
+                pairs = [tuple(p.split("=", 1)) for p in got.split("; ")] if got else []
+                for name, value in pairs:
+                    origins = [o for o in live if o["name"] == name and o["value"] == value]
+                    if not origins:
+                        b.fail("sticky.attached_cookie_has_live_origin", inp, f"Cookie: {got}")
+                        continue
+
+                    def judge(o):
+                        dm = (qhost.lower() == o["host"].lower()) if o["dattr"] is None else ref_domain_match(qhost, o["dattr"])
+                        return dm is not False, qport == o["port"], ref_path_match(qtarget, o["path"])
+
+                    if any(all(judge(o)) for o in origins):
+                        nontrivial = True
+                        continue
+                    nontrivial = True
+                    o = origins[0]
+                    dm, pm_port, pm = judge(o)
+                    if not pm_port:
+                        b.fail("sticky.attached_only_to_same_port", inp, f"Cookie: {got}")
+                    elif not dm:
+                        cls = _domain_defect(qhost, o["dattr"]) if o["dattr"] is not None else None
+                        b.fail(cls or ("sticky.host_only_cookie_only_to_identical_host" if o["dattr"] is None else "sticky.attached_only_if_domain_matches"), inp, f"Cookie: {got}")
+                    else:
+                        bare = qtarget.startswith(o["path"])
+                        b.fail("sticky.path_match.bare_prefix[KF-C54-2]" if bare else "sticky.attached_only_if_path_matches", inp, f"Cookie: {got} (cookie path {o['path']})")
+                # converse (sanity): a live origin that matches by RFC 6265 (host-only identical host, or dotted Domain) is attached
+                for o in live:
+                    hostlike = not _ref_is_ip(qhost.lower())
+                    dm = (qhost.lower() == o["host"].lower()) if o["dattr"] is None else (o["dattr"].startswith(".") and hostlike and ref_domain_match(qhost, o["dattr"]) is True and qhost.lower() != o["dattr"].lower().strip("."))
+                    if dm and qport == o["port"] and ref_path_match(qtarget, o["path"]) and (o["name"], o["value"]) not in pairs:
+                        b.fail("sticky.attached_when_matching", inp, f"Cookie: {got!r}, live {o}")
+                if bool(pairs) != bool(q.metadata.get("stickycookie")):
+                    b.fail("sticky.metadata_flag", inp, f"metadata={q.metadata}")
+                b.case((tuple(resps), qhost, qport, qtarget), nontrivial=nontrivial)
+
+    asyncio.run(run())
+    return b
